@@ -100,7 +100,7 @@ Fixpoint scale_row (s : shape) (row : list Z) : idx :=
 Definition cand (s : shape) (draw : list (list Z)) : list idx := unique_rows (map (scale_row s) draw).
 
 (* while len(subs) < nonzeros and cnt < 10: subs = cand(next draw); cnt += 1
-   returns the final candidate list and the number of draws consumed *)
+   returns the final candidate list and the number of draws demanded from the stream *)
 Fixpoint redraw (fuel nz : nat) (s : shape) (cur : list idx) (draws : list (list (list Z))) : list idx * nat :=
   match fuel with
   | O => (cur, O)
@@ -108,7 +108,7 @@ Fixpoint redraw (fuel nz : nat) (s : shape) (cur : list idx) (draws : list (list
       if length cur <? nz then
         match draws with
         | d :: ds => let r := redraw f nz s (cand s d) ds in (fst r, S (snd r))
-        | [] => (cur, O)
+        | [] => (cur, 1)   (* stream exhausted: one more draw is DEMANDED (so a shorter captured stream disagrees) *)
         end
       else (cur, O)
   end.
